@@ -101,6 +101,16 @@ func FromRune(r rune) string {
 	return string(r)
 }
 
+func FromByteAt(s string, i int) string {
+	return string(s[i])
+}
+
+func FromByteVar(s string, i int) string {
+	b := s[i]
+	var c byte = b
+	return string(c) + string(rune(b))
+}
+
 func Cmp(a string, b string) int {
 	n := 0
 	if a == b {
@@ -286,6 +296,8 @@ func c13run(r *report.Run) {
 			check(m, "AtAny", S, []int{i}, fmt.Sprintf("uint8:%d", s[i]))
 			check(m, "Digit", S, []int{i}, fmt.Sprintf("bool:%v", s[i]-'0' <= 9))
 			check(m, "ByteMath", S, []int{i}, fmt.Sprintf("uint8:%d", s[i]+200))
+			check(m, "FromByteAt", S, []int{i}, "string:"+strconv.Quote(string(rune(s[i]))))
+			check(m, "FromByteVar", S, []int{i}, "string:"+strconv.Quote(string(rune(s[i]))+string(rune(s[i]))))
 			check(m, "SubFrom", S, []int{i}, "string:"+strconv.Quote(s[i:]))
 			check(m, "SubTo", S, []int{i}, "string:"+strconv.Quote(s[:i]))
 			for j := i; j <= len(s); j++ {
